@@ -342,7 +342,8 @@
         #[kani::unwind(3)]
         fn repoll_panics() {
             let ch = Chan::<NoopLock>::new();
-            core::mem::forget(ch.send(Tag(1)));
+            // both completion paths: Some(value) after send, None after close
+            if kani::any() { core::mem::forget(ch.send(Tag(1))); } else { let _ = ch.close(); }
             repoll_after_ready(ch.receive());
         }
         #[kani::proof]
